@@ -203,6 +203,48 @@ func (fa *FA) closeFacts(facts []*Lin, neq []*Lin, invs []*Inv, goal *Lin) []*Li
 	triedT := map[int]bool{}
 	triedI := map[*Inv]bool{}
 	doneNeq := map[int]bool{}
+	// quick entailment: the condition itself (or a tighter single-atom bound) is among the facts
+	nKnown := 0
+	known := map[string]bool{}
+	type bd struct{ lo, hi *big.Int }
+	bds := map[AtomID]*bd{}
+	holds := func(cond *Lin) bool {
+		for ; nKnown < len(out); nKnown++ {
+			f := normIneq(out[nKnown])
+			known[f.key()] = true
+			if a, up, v, ok := bound1(f); ok {
+				b := bds[a]
+				if b == nil {
+					b = &bd{}
+					bds[a] = b
+				}
+				if up && (b.hi == nil || v.Cmp(b.hi) < 0) {
+					b.hi = v
+				}
+				if !up && (b.lo == nil || v.Cmp(b.lo) > 0) {
+					b.lo = v
+				}
+			}
+		}
+		c := normIneq(cond)
+		if c.isConst() {
+			return c.C.Sign() <= 0
+		}
+		if known[c.key()] {
+			return true
+		}
+		if a, up, v, ok := bound1(c); ok {
+			if b := bds[a]; b != nil {
+				if up && b.hi != nil && b.hi.Cmp(v) <= 0 {
+					return true
+				}
+				if !up && b.lo != nil && b.lo.Cmp(v) >= 0 {
+					return true
+				}
+			}
+		}
+		return entails(out, cond)
+	}
 	for round := 0; round < 8; round++ {
 		// connect: atoms of facts that touch the component
 		for changed := true; changed; {
@@ -249,7 +291,7 @@ func (fa *FA) closeFacts(facts []*Lin, neq []*Lin, invs []*Inv, goal *Lin) []*Li
 			}
 			ok := true
 			for _, g := range iv.Guard {
-				if !entails(out, g) {
+				if !holds(g) {
 					ok = false
 					break
 				}
@@ -309,7 +351,7 @@ func (fa *FA) closeFacts(facts []*Lin, neq []*Lin, invs []*Inv, goal *Lin) []*Li
 				}
 				ok := true
 				for _, cond := range t.Conds {
-					if !entails(out, cond) {
+					if !holds(cond) {
 						ok = false
 						break
 					}
@@ -441,18 +483,16 @@ func (fa *FA) preExpand() {
 	}
 }
 
-// phiAtomsOf lists the phi-like atoms of block m.
+// phiAtomsOf lists the phi-like atoms of block m (index built after preExpand).
 func (fa *FA) phiAtomsOf(m *ssa.BasicBlock) []*Atom {
-	if fa.phiAtoms != nil && fa.phiAtomsN == len(fa.A.atoms) {
-		return fa.phiAtoms[m]
-	}
-	fa.phiAtoms = map[*ssa.BasicBlock][]*Atom{}
-	for _, a := range fa.A.atoms {
-		if a.Fn == fa.fn && a.Phi != nil {
-			fa.phiAtoms[a.Phi.Block] = append(fa.phiAtoms[a.Phi.Block], a)
+	if fa.phiAtoms == nil {
+		fa.phiAtoms = map[*ssa.BasicBlock][]*Atom{}
+		for _, a := range fa.A.atoms[fa.atomStart:] {
+			if a.Fn == fa.fn && a.Phi != nil && a.owner == fa {
+				fa.phiAtoms[a.Phi.Block] = append(fa.phiAtoms[a.Phi.Block], a)
+			}
 		}
 	}
-	fa.phiAtomsN = len(fa.A.atoms)
 	return fa.phiAtoms[m]
 }
 
